@@ -1,7 +1,9 @@
 #!/bin/bash
-# Build the framework offline from files on disk: regenerate translated definitions, then lake build.
+# Build the framework offline from files on disk: regenerate translated definitions and the
+# library root, then lake build everything (all property theorems are checked here once).
 set -e
 cd "$(dirname "$0")"
-/venv/bin/python translate/py2lean.py || echo "setup: some translation targets are broken (reported by the checks)"
+/venv/bin/python translate/py2lean.py >/dev/null || echo "setup: some translation targets are broken (reported by the checks)"
+tools/gen_root.sh
 cd lean
-lake build HdVerif HdVerif.Audit 2>&1 | tail -5
+lake build HdVerif HdVerif.Audit 2>&1 | grep -v "^warning\|^Hint\|^Note\|^  \|^$" | tail -15
